@@ -257,14 +257,6 @@ Proof.
   - intros H. destruct (IH H). auto.
 Qed.
 
-Lemma pool_subset : forall ra gain lib s, In s (pool ra gain lib) -> In s lib.
-Proof.
-  intros ra gain lib s H. unfold pool in H.
-  destruct (filter (gain_ok gain) (amp_list ra lib)) as [| x g] eqn:E.
-  - unfold edfa_list in H. apply filter_In in H. tauto.
-  - rewrite <- E in H. apply filter_In in H. destruct H as [H _]. apply amp_list_In in H. tauto.
-Qed.
-
 Lemma auto_select_red : forall nd prev next bmin bmax maxl gain pt ext nf lib s red,
   auto_select nd prev next bmin bmax maxl gain pt ext nf lib = Ok (s, red) ->
   In s lib /\ red = Qmin (pow_margin ext gain pt s) 0.
